@@ -245,7 +245,8 @@ func checkAnswered(c *Ctx, r *Report, li *LockInfo, rule string) {
 		}
 		return out
 	}
-	calleeWrites := func(g *ssa.Function, class string) (bool, string) {
+	var calleeWritesD func(g *ssa.Function, class string, depth int) (bool, string)
+	calleeWritesD = func(g *ssa.Function, class string, depth int) (bool, string) {
 		unw := map[ssa.Instruction]bool{}
 		for _, e := range unwritten(g) {
 			unw[e] = true
@@ -258,11 +259,32 @@ func checkAnswered(c *Ctx, r *Report, li *LockInfo, rule string) {
 			}
 			cl := classOf(g, ret)
 			if cl[class] || (class != "nil" && cl["unknown"]) {
+				// a return that hands on the result of another answering function (`return p.helper(...)`)
+				// is fine if that function gives the same guarantee
+				vals := retVals(ret)
+				if len(vals) > 0 && depth < 3 {
+					src := unconv(vals[len(vals)-1])
+					if ex, isEx := src.(*ssa.Extract); isEx {
+						src = ex.Tuple
+					}
+					if call, isCall := src.(*ssa.Call); isCall {
+						all := len(li.Callees[call]) > 0
+						for _, h := range li.Callees[call] {
+							if okh, _ := calleeWritesD(h, class, depth+1); !mayWrite(h) || !okh {
+								all = false
+							}
+						}
+						if all {
+							return
+						}
+					}
+				}
 				bad = c.InstrPos(ret)
 			}
 		})
 		return bad == "", bad
 	}
+	calleeWrites := func(g *ssa.Function, class string) (bool, string) { return calleeWritesD(g, class, 0) }
 	for _, name := range []string{"(*reservoir/proxy.Proxy).handleRangeRequest", "(*reservoir/proxy.Proxy).processRequest", "(*reservoir/proxy.Proxy).handleHTTP"} {
 		fs := c.FuncsNamed(name)
 		if len(fs) == 0 {
